@@ -33,7 +33,9 @@ type RenderOpts struct {
 	Module string // non-empty: module file with this header name; else model file with m.Schema
 	// Extend[i] marks type i as "extend type" (module files only)
 	Extend map[int]bool
-	// NoLayout: canonical layout regardless of the chooser (used for the second, plain rendering)
+	// Header (fault injection only): "both" writes a model header followed by a module header,
+	// "neither" writes no header at all.
+	Header string
 }
 
 type writer struct {
@@ -232,7 +234,19 @@ func Render(m *Model, c Chooser, o RenderOpts) *Rendered {
 		w.emit("  ")
 		w.feat["odd-indent"] = true
 	}
-	if o.Module != "" {
+	if o.Header == "neither" {
+		// nothing: the first type definition supplies the leading NEWLINE
+	} else if o.Header == "both" {
+		w.emit("model")
+		w.nl(2, false)
+		w.emit("schema")
+		w.ws()
+		w.emit(m.Schema)
+		w.nl(0, false)
+		w.emit("module")
+		w.ws()
+		w.emit("m")
+	} else if o.Module != "" {
 		w.emit("module")
 		w.ws()
 		w.mark(r.Pos, "module")
@@ -366,7 +380,11 @@ func (w *writer) relationDef(r *Rewrite, restr []Restriction, first, top bool) {
 		for i, k := range r.Kids {
 			if i > 0 {
 				w.ws()
-				w.emit(opWord(r.Kind))
+				if r.Mixed != "" && i == len(r.Kids)-1 {
+					w.emit(opWord(r.Mixed))
+				} else {
+					w.emit(opWord(r.Kind))
+				}
 				w.ws()
 			}
 			w.operand(k, restr, first && i == 0)
@@ -395,6 +413,9 @@ func (w *writer) direct(restr []Restriction) {
 	}
 	saved := w.comments
 	w.emit("[")
+	if len(restr) == 0 && w.pick(2, "empty_restr_blank") == 1 {
+		w.emit(" ")
+	}
 	for i, x := range restr {
 		if i > 0 {
 			w.emit(",")
